@@ -309,6 +309,7 @@ type WorkerOut struct {
 	TapeKinds  map[string]int    `json:"tape_nonzero_by_kind"`
 	RaceErrs   int               `json:"race_errors"`
 	Sites      int               `json:"repo_sites"`
+	InconclSamples []string      `json:"inconclusive_samples"`
 }
 
 type WViolation struct {
@@ -353,6 +354,9 @@ func Worker(t *testing.T, prop string, seed0 uint64, first, runs int, out string
 		w.Stalls += r.Stalls
 		if r.Inconcl != "" {
 			w.Inconcl++
+			if len(w.InconclSamples) < 2 {
+				w.InconclSamples = append(w.InconclSamples, fmt.Sprintf("seed %d: %s after %d steps: %s", seed, r.Inconcl, r.Steps, strings.Join(r.Desc, " | ")))
+			}
 		}
 		if r.Leak {
 			w.Leaks++
